@@ -77,6 +77,7 @@ type c02Part struct {
 
 // abstract description of a signature object
 type c02Spec struct {
+	typedNil bool     // with absent: BLS only, a nil *BLS12AggregateSignature instead of a nil interface
 	absent  bool      // nil interface
 	other   bool      // object of another scheme's Go type (list schemes only)
 	parts   []c02Part //
@@ -506,6 +507,10 @@ func (w *c02World) garbage(l int) []byte {
 // of the recorded signatures that were added).
 func (w *c02World) render(sp c02Spec) c02Sig {
 	if sp.absent {
+		if sp.typedNil && w.scheme == crypto.NameBLS12 {
+			// a nil POINTER inside a non-nil interface: counts as "no signature" as well
+			return c02Sig{obj: (*crypto.BLS12AggregateSignature)(nil), term: "None"}
+		}
 		return c02Sig{obj: nil, term: "None"}
 	}
 	if w.scheme != crypto.NameBLS12 {
@@ -756,10 +761,15 @@ func (w *c02World) wrapQC(obj hotstuff.QuorumCert, sig c02Sig) *c02QC {
 // the stored block with the view the QC claims (or is it the genesis QC)?
 func (w *c02World) qcTruth(q *c02QC) (bool, string) {
 	if q.hash == 1 {
-		if q.view == 0 {
-			return true, "genesis"
+		// the genesis certificate: genesis hash, view 0 and NO signature (nobody signs the genesis block;
+		// a nil interface and a nil pointer both count as no signature)
+		switch {
+		case q.view != 0:
+			return false, "genesis-view-relabelled"
+		case q.obj.HasSignature():
+			return false, "genesis-with-signature"
 		}
-		return false, "genesis-view-relabelled"
+		return true, "genesis"
 	}
 	bv, ok := w.stored[q.hash]
 	if !ok {
